@@ -127,14 +127,14 @@ def load(f, **options):  # type: (typing.IO, **typing.Any) -> canmatrix.CanMatri
             else:
                 (bu, attrib, value) = line.split(',', 2)
                 db.ecu_by_name(bu).add_attribute(
-                    attrib.replace('"', ''), value[1:-1])
+                    attrib.replace('"', ''), value.replace('"', ''))
 
         elif mode == 'ParamNetVal':
             if line.startswith("[END_PARAM_NET_VAL]"):
                 mode = ''
             else:
                 (attrib, value) = line.split(',', 1)
-                db.add_attribute(attrib.replace('"', ''), value[1:-1])
+                db.add_attribute(attrib.replace('"', ''), value.replace('"', ''))
 
         elif mode == 'ParamSigVal':
             if line.startswith("[END_PARAM_SIG_VAL]"):
@@ -143,7 +143,7 @@ def load(f, **options):  # type: (typing.IO, **typing.Any) -> canmatrix.CanMatri
                 (bo_id, tem_s, signal_name, attrib, value) = line.split(',', 4)
                 frame_by_number(bo_id)\
                     .signal_by_name(signal_name)\
-                    .add_attribute(attrib.replace('"', ''), value[1:-1])
+                    .add_attribute(attrib.replace('"', ''), value.replace('"', ''))
 
         elif mode == 'ParamSig':
             if line.startswith("[END_PARAM_SIG]"):
